@@ -534,6 +534,26 @@ def rule_send_await(prog):
             c.loc(bad[1]["sp"]) if bad else "", "`.%s()` on a collection of protocol messages in `%s`: a batch that was queued while the "
             "other side was busy is written back to front (or thinned out): responses leave request order, the last diagnostics published are "
             "not the ones of the final content" % (bad[1]["m"] if bad else "", bad[0]["d"] if bad else ""), ("order",))
+    # wait: an answer from the other side of a channel is waited for, however long it takes.  A wait that gives up (`timeout`, `try_recv`,
+    # `select!` against a timer) answers differently when the broker is busy - with "no such document" behind a burst of changes
+    timed = None
+    n_wait = 0
+    for b in c.bodies:
+        if "/tests" in c.file_of(b["sp"]) or "_serde" in b["d"]:
+            continue
+        for x in hir.nodes(b["body"]):
+            if x.get("k") == "Await":
+                n_wait += 1
+            if x.get("k") == "Call" and (hir.callee(x) or "").startswith("tokio::time::") and last_seg(hir.callee(x) or "") in (
+                    "timeout", "timeout_at", "sleep", "sleep_until", "interval"):
+                timed = timed or (b, x)
+            if x.get("k") == "MethodCall" and x["m"] in ("try_recv", "recv_timeout", "blocking_recv") and "Receiver" in (
+                    c.tstr(hir.strip(x["recv"])["t"]) + "".join(c.tstr(a_["to"]) for a_ in hir.strip(x["recv"]).get("adj") or [])):
+                timed = timed or (b, x)
+    out.add("message queues", "a wait for the other side of a channel does not give up", timed is None,
+            c.loc(timed[1]["sp"]) if timed else "", ("%s waits with a time limit / without waiting; " % timed[0]["d"] if timed else "") +
+            "a request behind hundreds of pipelined changes is answered when the broker gets to it - an answer that depends on how long that takes "
+            "(`null` after one second) is not the answer from the changed document (%d awaits looked at)" % n_wait, ("wait",))
     return out
 
 
@@ -793,6 +813,118 @@ def rule_index_domain(prog):
     if n == 0:
         out.add("features", "an index is used with the sequence it was counted in", True, "", "no position() search")
     return out
+
+
+# ------------------------------------------------------------------ DECL-SEARCH
+
+def rule_decl_search(prog):
+    """Every global declaration is looked at when a feature searches the declarations of a document: an adaptor that ends the iteration
+    at the first declaration with a certain *content* (`map_while(|gd| name_of(gd))`, `take_while(|gd| !is_error(gd))`) cuts off every
+    declaration behind a damaged one - they are still parsed and in the table, but no longer navigable."""
+    out = Out("DECL-SEARCH")
+    c = prog.lsp
+    ENDING = ("map_while", "take_while", "scan", "take", "skip_while", "skip", "step_by")
+    n = 0
+    bad = None
+    for b in c.bodies:
+        if "/tests" in c.file_of(b["sp"]) or not b["p"].startswith("lsp4spl::features"):
+            continue
+        for mc, parents in hir.walk(b["body"]):
+            if mc.get("k") != "MethodCall" or mc["m"] not in ENDING:
+                continue
+            # rooted at `<program>.global_declarations`?
+            r_ = hir.strip_ref(mc["recv"])
+            rooted = False
+            while r_.get("k") == "MethodCall":
+                r_ = hir.strip_ref(r_["recv"])
+            if r_.get("k") == "Field" and r_["name"] == "global_declarations":
+                rooted = True
+            pl_ = hir.path_local(r_)
+            if pl_:
+                for l_ in hir.nodes(b["body"], "Let"):
+                    if l_["pat"].get("k") == "Binding" and l_["pat"]["id"] == pl_["id"] and l_.get("init") is not None and \
+                            any(f_.get("k") == "Field" and f_["name"] == "global_declarations" for f_ in hir.nodes(l_["init"])):
+                        rooted = True
+            if not rooted:
+                continue
+            n += 1
+            # what does the adaptor decide on?  The content of a declaration (its name, its variant), or something else (a position)
+            content = False
+            for a_ in mc.get("args") or []:
+                for x in hir.nodes_deep(prog, a_, 2, crate=c, values=True):
+                    if x.get("k") == "Field" and x["name"] == "name":
+                        content = True
+                    pats = [q["pat"] for q in x["arms"]] if x.get("k") == "Match" else [x["pat"]] if x.get("k") == "LetExpr" else []
+                    if any("ast::GlobalDeclaration::" in v for pt in pats for v in hir.pat_variants_all(pt)):
+                        content = True
+            if (content or mc["m"] in ("take", "skip", "step_by")) and bad is None:
+                bad = (b, mc)
+    for b in c.bodies:
+        if "/tests" in c.file_of(b["sp"]) or not b["p"].startswith("lsp4spl::features"):
+            continue
+        n += sum(1 for f_ in hir.nodes(b["body"], "Field") if f_["name"] == "global_declarations")
+    if n == 0:
+        out.missing("uses of Program.global_declarations in lsp4spl::features")
+        return out
+    out.add("features", "a search over the global declarations looks at every declaration", bad is None,
+            c.loc(bad[1]["sp"]) if bad else "", ("`.%s(..)` in %s ends the iteration at the first declaration whose content says so; " % (bad[1]["m"], bad[0]["d"]) if bad else "") +
+            "a declaration that lost its name (a token pushed out of a type declaration, a deleted name) ends the search for the declaration "
+            "around the cursor: go-to, hover, references and rename answer nothing in every intact declaration behind it (%d uses looked at)" % n)
+    return out
+
+
+# ------------------------------------------------------------------ REQ-PURE
+
+def rule_req_pure(prog):
+    """Signature help is a function of the document and the position: the handler reads the position part of its parameters and nothing
+    else.  The request *context* (how the client came to ask: typed trigger character, retrigger, what it is showing at the moment) says
+    nothing about how many commas stand between the parenthesis and the cursor."""
+    out = Out("REQ-PURE")
+    c = prog.lsp
+    hs = [b for b in c.bodies if b["p"].startswith("lsp4spl::features::signature_help") and "/tests" not in c.file_of(b["sp"]) and
+          b["k"] in ("fn", "assoc_fn") and any("SignatureHelpParams" in c.tstr(pp["bt"]) for q in b["params"] for pp in hir.pat_bindings(q))]
+    if not hs:
+        out.missing("signature help handler (a function of features::signature_help that takes SignatureHelpParams)")
+        return out
+    for b in hs:
+        bad = None
+        for x in hir.nodes_deep(prog, b["body"], 2, crate=c):
+            if x.get("k") == "Field" and x["name"] == "context":
+                t_ = c.tstr(hir.strip(x["base"])["t"]) + "".join(c.tstr(a_["to"]) for a_ in hir.strip(x["base"]).get("adj") or [])
+                if "SignatureHelpParams" in t_:
+                    bad = x
+            # (taken apart by a pattern)
+            pats = [x["pat"]] if x.get("k") in ("Let", "LetExpr") and x.get("pat") else [a_["pat"] for a_ in x["arms"]] if x.get("k") == "Match" else []
+            for pt in pats:
+                for sp_ in _struct_pats(pt):
+                    if "SignatureHelpParams" in str((sp_.get("res") or {}).get("p") or "") and any(
+                            f_["name"] == "context" and hir.pat_strip(f_["pat"]).get("k") != "Wild" for f_ in sp_.get("fields") or []):
+                        bad = x
+        out.add(b["d"], "the answer does not depend on the request context", bad is None, c.loc((bad or b)["sp"]),
+                "the handler reads `params.context`: the active parameter is the number of commas between the opening parenthesis and the "
+                "cursor however the request came about - with a shortcut for a typed `(`, a parenthesis typed inside the second argument "
+                "answers parameter 0")
+    return out
+
+
+def _struct_pats(p):
+    p = hir.pat_strip(p)
+    if not isinstance(p, dict):
+        return
+    if p.get("k") == "Struct":
+        yield p
+    for q in p.get("pats") or []:
+        for y in _struct_pats(q):
+            yield y
+    for f in p.get("fields") or []:
+        for y in _struct_pats(f.get("pat")):
+            yield y
+    if isinstance(p.get("sub"), dict):
+        for y in _struct_pats(p["sub"]):
+            yield y
+    if isinstance(p.get("pat"), dict):
+        for y in _struct_pats(p["pat"]):
+            yield y
 
 
 # ------------------------------------------------------------------ ONE-PER-ITEM
